@@ -17,7 +17,7 @@ conf = open(out + "/confirm.txt").read() if os.path.exists(out + "/confirm.txt")
 meta = {
     "property": m["property"], "summary": m.get("summary"), "needs_to_manifest": m.get("needs_to_manifest"), "files_changed": m.get("files_changed"),
     "origin": "independent sub-agent given only the property text and a scratch worktree",
-    "confirmed_by_me": {"how": "tools/confirm_seed.sh in a scratch worktree of /repo HEAD: demo on HEAD, demo with patch, existing suite (nextest, 79 tests) with patch",
+    "confirmed_by_me": {"how": "tools/confirm_seed2.sh in a scratch worktree of /repo HEAD: demo on HEAD, demo with patch, existing suite (nextest, 79 tests) with patch",
                         "result": conf.strip().split("\n")[:3]},
     "expect": "fire", "caught_by": caught, "note": note,
 }
